@@ -187,7 +187,8 @@ where
   stepAttrName (s : S) (l : TagL) (c : Char) (p p' : Pos) : Except Err S :=
     let cont (l : TagL) : Except Err S := .ok { s with mode := .tag l, pos := p' }
     let endCheck (l : TagL) : Except Err S := if c = '>' then .ok (finishTag s l p') else cont l
-    if isSpace c then endCheck { l with attrName := ' ' :: l.attrName }
+    -- a run of blanks after the name is recorded as ONE blank (trimOneSpace removes it again)
+    if isSpace c then endCheck (match l.attrName with | ' ' :: _ => l | _ => { l with attrName := ' ' :: l.attrName })
     else if c = '>' then
       let a : Attr := { name := (trimOneSpace l.attrName).reverse, nameStart := l.attrNameStart, nameEnd := l.attrNameEnd,
                         value := none, valueStart := ⟨0,0⟩, valueEnd := ⟨0,0⟩ }
